@@ -290,7 +290,9 @@ PayFees(s0, chain, ev, b, tok, totF) ==
     LET base == CASE chain = "ethereum" -> "eth" [] chain = "bsc" -> "bnb" [] OTHER -> ""
     IN  IF totF <= 0 \/ base = "" THEN [ok |-> TRUE, s |-> s0, panic |-> FALSE]
         ELSE IF ~Has(s0.pr, base) \/ ~Has(s0.pr, tok.denom)
-        THEN [ok |-> FALSE, s |-> s0, panic |-> TRUE]              \* MustGetTokenPrice panics
+        THEN IF "PriceMissingPanics" \in Dev
+             THEN [ok |-> FALSE, s |-> s0, panic |-> TRUE]         \* MustGetTokenPrice panicked
+             ELSE [ok |-> TRUE, s |-> s0, panic |-> FALSE]         \* no prices: the fees stay undistributed
         ELSE
         LET want == Reimbursement(s0, base, tok.denom, ev.fp)
             fee  == IF want >= totF THEN totF ELSE want
@@ -341,10 +343,11 @@ HandleExec(s, chain, ev) ==
            LET zeroShare == totC > 0 /\ \E v \in pset : CommissionShare(s3, pset, v, totC) <= 0
                s4 == IF totC <= 0 THEN s3
                      ELSE FoldLeft(LAMBDA acc, v :
-                              CreateSend(acc, "minter", "tmp", s3.ch["minter"].ve[v], tok.denom,
+                              IF CommissionShare(s3, pset, v, totC) <= 0 THEN acc      \* a zero share is skipped
+                              ELSE CreateSend(acc, "minter", "tmp", s3.ch["minter"].ve[v], tok.denom,
                                          CommissionShare(s3, pset, v, totC), 0, 0, "#commission", "", "").s,
                               Credit(s3, "tmp", tok.denom, totC), payees)
-           IN IF zeroShare THEN [ok |-> FALSE, s |-> s, panic |-> TRUE]
+           IN IF zeroShare /\ "ZeroSharePanics" \in Dev THEN [ok |-> FALSE, s |-> s, panic |-> TRUE]
               ELSE PayFees(s4, chain, ev, b, tok, totF)
 
 HandleSSExec(s, chain, ev) ==
